@@ -364,7 +364,12 @@ class KeyPath(formatting.Formattable):
           raise KeyError(
               f'Cannot query index ({key}) on object ({src!r}): '
               f'\'__len__\' does not exist.')
-        if key < len(src):
+        # NOTE: an int can be a key of a mapping (any value) or an index of a
+        # sequence (negative indices count from the end).
+        if isinstance(src, dict):
+          if key in src:
+            return self._query(key_pos + 1, src[key], use_inferred)
+        elif -len(src) <= key < len(src):
           return self._query(key_pos + 1, src[key], use_inferred)
       else:
         if not hasattr(src, '__contains__'):
